@@ -765,6 +765,57 @@ def translate_value_site(site):
         py2lean.CALL_HOOKS.remove(_value_hook)
 
 
+# ---- `_canonical_quaternion`: the sign rule (which of q / -q represents the rotation), as a Boolean expression ---------------
+CANON_GLUE = ["(x, y, z, w) = (quaternion[..., QUAT_AXIS_ORDER.index(axis)] for axis in 'xyzw')",
+              'canonical_quaternion = torch.where(needs_inversion.unsqueeze(-1), -quaternion, quaternion)',
+              'return canonical_quaternion']
+SITE_PROPS['rot_needs_inversion'] = 'C12'
+SITE_ALSO['rot_needs_inversion'] = ['C13']
+
+
+def _bexpr(node, env):
+    U = py2lean.Untranslatable
+    if isinstance(node, ast.BinOp) and isinstance(node.op, (ast.BitOr, ast.BitAnd)):
+        op = '||' if isinstance(node.op, ast.BitOr) else '&&'
+        return f'({_bexpr(node.left, env)} {op} {_bexpr(node.right, env)})'
+    if isinstance(node, ast.Compare) and len(node.ops) == 1 and isinstance(node.left, ast.Name) and node.left.id in env \
+            and isinstance(node.comparators[0], ast.Constant) and node.comparators[0].value == 0:
+        if isinstance(node.ops[0], ast.Lt):
+            return f'(decide ({env[node.left.id]} < 0))'
+        if isinstance(node.ops[0], ast.Eq):
+            return f'({env[node.left.id]} == 0)'
+    raise U(f'boolean expression {ast.unparse(node)[:50]}')
+
+
+def translate_canonical():
+    U = py2lean.Untranslatable
+    sig = '(q_0 : K) (q_1 : K) (q_2 : K) (q_3 : K)'
+    try:
+        text = (SRC / 'data/Rotation.py').read_text()
+        tree = ast.parse(text)
+        fn = _find(tree, None, '_canonical_quaternion')
+        consts = {t.targets[0].id: t.value for t in tree.body if isinstance(t, ast.Assign) and isinstance(t.targets[0], ast.Name)}
+        if not (isinstance(consts.get('AXIS_ORDER'), ast.Constant) and ast.unparse(consts.get('QUAT_AXIS_ORDER')) == "AXIS_ORDER + 'w'"):
+            raise U('AXIS_ORDER / QUAT_AXIS_ORDER are not the expected constants')
+        order = consts['AXIS_ORDER'].value + 'w'
+        if sorted(order) != sorted('xyzw'):
+            raise U(f'axis order {order}')
+        env = {a: f'q_{order.index(a)}' for a in 'xyzw'}
+        body = [st for st in fn.body if not (isinstance(st, ast.Expr) and isinstance(st.value, ast.Constant))]
+        if len(body) != 4 or [ast.unparse(body[i]) for i in (0, 2, 3)] != [ast.unparse(ast.parse(t).body[0]) if not t.startswith('return') else t for t in CANON_GLUE]:
+            raise U('the statements around the sign rule were rewritten')
+        st = body[1]
+        if not (isinstance(st, ast.Assign) and ast.unparse(st.targets[0]) == 'needs_inversion'):
+            raise U('needs_inversion not found')
+        term = _bexpr(st.value, env)
+        return (f'/-- translated from `data/Rotation.py:_canonical_quaternion (line {fn.lineno})`: `needs_inversion = …` with x, y, z, w = components '
+                f'{[order.index(a) for a in "xyzw"]} of the stored quaternion (AXIS_ORDER = {order[:3]!r}); the result is `-q` where it holds, else `q` -/\n'
+                f'def rot_needs_inversion {sig} : Bool :=\n  {term}\ndef rot_needs_inversion_translated : Bool := true'), 'translated'
+    except (U, OSError, SyntaxError, AttributeError) as e:
+        return (f'/-- FALLBACK (source outside the translatable fragment: {str(e)[:100]}): the hand-written model -/\n'
+                f'def rot_needs_inversion {sig} : Bool :=\n  M.needsInversion 2 1 0 ⟨q_0, q_1, q_2, q_3⟩\ndef rot_needs_inversion_translated : Bool := false'), f'fallback: {e}'
+
+
 def _find(tree, cls, func):
     scope = tree
     if cls is not None:
@@ -835,7 +886,11 @@ def generate():
         text, st = translate_rot_site(site)
         out += [text, '']
         status[site['name']] = st
-    out += ['end Rot', '', '/-! proximal maps of the functionals, per element (real case) -/', 'section Prox',
+    out += ['end Rot', '', 'section RotOrder', 'variable {K : Type} [LT K] [DecidableLT K] [BEq K] [OfNat K 0] [Neg K]', '']
+    text, st = translate_canonical()
+    out += [text, '']
+    status['rot_needs_inversion'] = st
+    out += ['end RotOrder', '', '/-! proximal maps of the functionals, per element (real case) -/', 'section Prox',
             'variable {K : Type} [LT K] [DecidableLT K] [Neg K] [OfNat K 0] [OfNat K 1] [OfNat K 2] [Add K] [Sub K] [Mul K] [Div K]', 'open M', '']
     for site in PROX_SITES:
         text, st = translate_prox_site(site)
